@@ -1,5 +1,5 @@
 import ChythonModel.Py.Wire
-import ChythonModel.Py.IntSet
+import ChythonModel.Py.IntSetRegs
 /-!
 Line-protocol driver for C19: a request line is a whole program over set registers, ops separated by `;`.
 
@@ -16,13 +16,12 @@ Observations (`remove`, `pop`, `has`, `iter`, `state`, `ddel`, `dpopitem`, `dkey
 open ChythonModel.Py ChythonModel.Py.IntSet
 
 structure St where
-  regs : List (Nat × IntSet) := []
+  regs : Regs := []
   dicts : List (Nat × IntDict) := []
   out : Array String := #[]
 
-def St.get (st : St) (r : Nat) : Option IntSet := (st.regs.find? (·.1 == r)).map (·.2)
-def St.put (st : St) (r : Nat) (s : IntSet) : St :=
-  { st with regs := (r, s) :: st.regs.filter (·.1 != r) }
+def St.get (st : St) (r : Nat) : Option IntSet := st.regs.get r
+def St.put (st : St) (r : Nat) (s : IntSet) : St := { st with regs := st.regs.put r s }
 def St.getD (st : St) (r : Nat) : IntDict := ((st.dicts.find? (·.1 == r)).map (·.2)).getD IntDict.empty
 def St.putD (st : St) (r : Nat) (d : IntDict) : St :=
   { st with dicts := (r, d) :: st.dicts.filter (·.1 != r) }
@@ -35,48 +34,44 @@ inductive Step where
 
 def reg (i : Int) : Option Nat := if i < 0 then none else some i.toNat
 
-def upd (st : St) (r : Int) (f : IntSet → Option IntSet) : Step :=
-  match reg r with
-  | none => .bad
-  | some r => match st.get r with
-    | none => .fail
-    | some s => match f s with
-      | none => .fail
-      | some s' => .ok (st.put r s')
-
-def mk (st : St) (d : Int) (v : Option IntSet) : Step :=
-  match reg d, v with
-  | some d, some s => .ok (st.put d s)
-  | none, _ => .bad
-  | _, none => .fail
-
 def getI (st : St) (r : Int) : Option IntSet := (reg r).bind st.get
 
-/-- single-register ops go through `IntSet.stepOp` — the function the refinement theorem of Props/C19 is about -/
-def viaStep (st : St) (r : Int) (op : SetOp) : Step :=
-  match reg r with
-  | none => .bad
-  | some r => match st.get r with
-    | none => .fail
-    | some s => match s.stepOp op with
-      | none => .fail
-      | some (s', .none) => .ok (st.put r s')
-      | some (s', .popped k) => .ok ((st.put r s').obs (toString k))
-      | some (s', .keyError) => .ok ((st.put r s').obs "KeyError")
+/-- every op that writes a register goes through `ROp.run` — the function `set_program_step_refines` (Props/C19) is about;
+single-register ops inside it through `IntSet.stepOp` -/
+def viaROp (st : St) (op : ROp) : Step :=
+  match op.run st.regs with
+  | none => .fail
+  | some (rs, .none) => .ok { st with regs := rs }
+  | some (rs, .popped k) => .ok ({ st with regs := rs }.obs (toString k))
+  | some (rs, .keyError) => .ok ({ st with regs := rs }.obs "KeyError")
 
 def step (st : St) (op : String) (xs : List Int) : Step :=
+  let r1 (xs : List Int) (f : Nat → ROp) : Step :=
+    match xs with
+    | [r] => match reg r with
+      | some r => viaROp st (f r)
+      | none => .bad
+    | _ => .bad
+  let r2 (a b : Int) (f : Nat → Nat → ROp) : Step :=
+    match reg a, reg b with
+    | some a, some b => viaROp st (f a b)
+    | _, _ => .bad
+  let r3 (a b c : Int) (f : Nat → Nat → Nat → ROp) : Step :=
+    match reg a, reg b, reg c with
+    | some a, some b, some c => viaROp st (f a b c)
+    | _, _, _ => .bad
   match op, xs with
-  | "new", [r] => mk st r (some empty)
-  | "add", [r, k] => viaStep st r (.add k)
-  | "discard", [r, k] => viaStep st r (.discard k)
+  | "new", [r] => r1 [r] .new
+  | "add", [r, k] => r1 [r] (.step · (.add k))
+  | "discard", [r, k] => r1 [r] (.step · (.discard k))
   | "remove", [r, k] =>
     match getI st r with
     | none => .fail
     | some s => match s.discard k with
       | none => .fail
       | some (s', found) => .ok ((st.put r.toNat s').obs (if found then "ok" else "KeyError"))
-  | "pop", [r] => viaStep st r .pop
-  | "clear", [r] => viaStep st r .clear
+  | "pop", [r] => r1 [r] (.step · .pop)
+  | "clear", [r] => r1 [r] (.step · .clear)
   | "has", [r, k] =>
     match getI st r with
     | none => .fail
@@ -91,37 +86,20 @@ def step (st : St) (op : String) (xs : List Int) : Step :=
     match getI st r with
     | none => .fail
     | some s => .ok (st.obs s!"mask={s.mask} used={s.used}")
-  | "updl", r :: ks => viaStep st r (.updateIter ks)
-  | "updd", r :: ks => viaStep st r (.updateDict ks)
-  | "upds", [r, q] =>
-    match getI st q with
-    | none => .fail
-    | some o => if r = q then .ok st else upd st r (·.merge o)
-  | "copy", [r, q] => mk st r ((getI st q).bind (·.copy))
-  | "dupl", r :: ks => viaStep st r (.differenceUpdate ks)
-  | "dups", [r, q] =>
-    match getI st q with
-    | none => .fail
-    | some o => if r = q then upd st r (fun s => some s.clear) else upd st r (·.differenceUpdate o.toList)
-  | "inter", [d, a, b] =>
-    if a = b then mk st d ((getI st a).bind (·.copy))
-    else match getI st a, getI st b with
-      | some a, some b => mk st d (interSet a.view b.view)
-      | _, _ => .fail
-  | "interTL", d :: a :: ks => mk st d ((getI st a).bind fun a => interSet a.view (View.ofList ks))
-  | "interLT", d :: b :: ks => mk st d ((getI st b).bind fun b => interSet (View.ofList ks) b.view)
-  | "interIt", d :: a :: ks => mk st d ((getI st a).bind fun a => interIter a.view ks)
-  | "diff", [d, a, b] =>
-    match getI st a, getI st b with
-    | some a, some b => mk st d (a.difference b.view true)
-    | _, _ => .fail
-  | "diffTL", d :: a :: ks => mk st d ((getI st a).bind fun a => a.difference (View.ofList ks) true)
-  | "diffIt", d :: a :: ks => mk st d ((getI st a).bind fun a => a.difference (View.ofList ks) false)
-  | "union", [d, a, b] =>
-    if a = b then mk st d ((getI st a).bind (·.copy))     -- `set_or`: `if (so == other) return copy`
-    else match getI st a, getI st b with
-    | some a, some b => mk st d (a.union b)
-    | _, _ => .fail
+  | "updl", r :: ks => r1 [r] (.step · (.updateIter ks))
+  | "updd", r :: ks => r1 [r] (.step · (.updateDict ks))
+  | "upds", [r, q] => r2 r q .updateSet
+  | "copy", [r, q] => r2 r q .copy
+  | "dupl", r :: ks => r1 [r] (.step · (.differenceUpdate ks))
+  | "dups", [r, q] => r2 r q .diffUpdateSet
+  | "inter", [d, a, b] => r3 d a b .inter
+  | "interTL", d :: a :: ks => r2 d a (.interTL · · ks)
+  | "interLT", d :: b :: ks => r2 d b (.interLT · · ks)
+  | "interIt", d :: a :: ks => r2 d a (.interIt · · ks)
+  | "diff", [d, a, b] => r3 d a b .diff
+  | "diffTL", d :: a :: ks => r2 d a (.diffTL · · ks)
+  | "diffIt", d :: a :: ks => r2 d a (.diffIt · · ks)
+  | "union", [d, a, b] => r3 d a b .union
   | "dset", [r, k] => match reg r with
     | none => .bad
     | some r => .ok (st.putD r ((st.getD r).set k))
